@@ -1,0 +1,111 @@
+//go:build verif
+
+package stream
+
+import (
+	"sync"
+	"sync/atomic"
+	"time"
+)
+
+// Verification-only scheduling points (build tag verif). verifYield(point) is called at a few
+// places of the ingest path (expandDataChannel, safeSendToDataChan, DataProcessor.Process).
+// When the harness has switched the facility on, the call appends the point to a trace and, if a
+// gate is armed for that point, parks the calling goroutine until the harness releases it. This
+// lets a test force a particular interleaving of producers, the expanding producer and the
+// consumer on the real code. Off (the default) it costs one atomic load.
+
+// VerifGate parks every goroutine that reaches its point until Release/Open is called.
+type VerifGate struct {
+	point   string
+	arrived chan struct{}
+	release chan struct{}
+	open    int32
+}
+
+var verifYieldState struct {
+	on    int32
+	mu    sync.Mutex
+	gates map[string]*VerifGate
+	trace []string
+}
+
+func verifYield(point string) {
+	if atomic.LoadInt32(&verifYieldState.on) == 0 {
+		return
+	}
+	verifYieldState.mu.Lock()
+	verifYieldState.trace = append(verifYieldState.trace, point)
+	g := verifYieldState.gates[point]
+	verifYieldState.mu.Unlock()
+	if g == nil || atomic.LoadInt32(&g.open) == 1 {
+		return
+	}
+	g.arrived <- struct{}{}
+	<-g.release
+}
+
+// VerifYieldReset opens and forgets all gates, clears the trace and switches the facility on/off.
+func VerifYieldReset(on bool) {
+	verifYieldState.mu.Lock()
+	for _, g := range verifYieldState.gates {
+		g.Open()
+	}
+	verifYieldState.gates = map[string]*VerifGate{}
+	verifYieldState.trace = nil
+	verifYieldState.mu.Unlock()
+	if on {
+		atomic.StoreInt32(&verifYieldState.on, 1)
+	} else {
+		atomic.StoreInt32(&verifYieldState.on, 0)
+	}
+}
+
+// VerifYieldGate arms (or returns the already armed) gate of a point.
+func VerifYieldGate(point string) *VerifGate {
+	verifYieldState.mu.Lock()
+	defer verifYieldState.mu.Unlock()
+	if verifYieldState.gates == nil {
+		verifYieldState.gates = map[string]*VerifGate{}
+	}
+	if g := verifYieldState.gates[point]; g != nil {
+		return g
+	}
+	g := &VerifGate{point: point, arrived: make(chan struct{}, 1<<16), release: make(chan struct{}, 1<<16)}
+	verifYieldState.gates[point] = g
+	return g
+}
+
+// WaitArrived waits until one more goroutine has parked at the gate (false: none within d).
+func (g *VerifGate) WaitArrived(d time.Duration) bool {
+	t := time.NewTimer(d)
+	defer t.Stop()
+	select {
+	case <-g.arrived:
+		return true
+	case <-t.C:
+		return false
+	}
+}
+
+// Release lets exactly one parked (or the next arriving) goroutine continue.
+func (g *VerifGate) Release() {
+	if atomic.LoadInt32(&g.open) == 1 {
+		return
+	}
+	g.release <- struct{}{}
+}
+
+// Open disarms the gate: everything parked continues and later arrivals pass through.
+func (g *VerifGate) Open() {
+	if atomic.CompareAndSwapInt32(&g.open, 0, 1) {
+		close(g.release)
+	}
+}
+
+// VerifYieldTrace returns a copy of the points reached since the last reset.
+func VerifYieldTrace() []string {
+	verifYieldState.mu.Lock()
+	defer verifYieldState.mu.Unlock()
+	return append([]string(nil), verifYieldState.trace...)
+}
